@@ -87,6 +87,7 @@ theorem step_failBind_mem (s : Sys F) (e : Ev) (a : Nat) (h : a ∈ (step s e).1
     · left; exact e
   | stamp idx weak ld ccb cct => left; exact h
   | syncTimeout => left; exact h
+  | reload now addrs outs => left; exact h
 
 /-! ## 2. Conn ids stay where they are -/
 
@@ -100,9 +101,9 @@ theorem LinkStep.connId {s : Sys F} {e : Ev} {j : Nat} {l l' : FLink F} (h : Lin
   | attempt now _ _ _ hl => obtain ⟨t, ht⟩ := hl; rw [ht]; exact (reconnectLink_fields l now).2.2.2.2.1
   | attemptFailed now _ _ _ _ hl => obtain ⟨t, ht⟩ := hl; rw [ht]; exact (failedLink_fields l now).2.2.2.2.1
 
-theorem step_ids (s : Sys F) (e : Ev) :
+theorem step_ids (s : Sys F) (e : Ev) (hnr : e.isReload = false) :
     (step s e).1.links.map (·.core.connId) = s.links.map (·.core.connId) := by
-  obtain ⟨h1, h2, -⟩ := step_link s e
+  obtain ⟨h1, h2, -⟩ := step_link s e hnr
   apply List.ext_getElem?
   intro k
   rw [List.getElem?_map, List.getElem?_map]
@@ -119,14 +120,14 @@ theorem step_ids (s : Sys F) (e : Ev) :
     rw [hs.connId]
 
 /-- Uplink datagrams for conn id `cid` are dispatched to the same link index after any event. -/
-theorem step_findIdx (s : Sys F) (e : Ev) (cid : Nat) :
+theorem step_findIdx (s : Sys F) (e : Ev) (hnr : e.isReload = false) (cid : Nat) :
     (step s e).1.links.findIdx? (·.core.connId == cid) = s.links.findIdx? (·.core.connId == cid) := by
   have h : ∀ ls : List (FLink F),
       ls.findIdx? (·.core.connId == cid) = (ls.map (·.core.connId)).findIdx? (· == cid) := by
     intro ls
     rw [List.findIdx?_map]
     rfl
-  rw [h, h, step_ids]
+  rw [h, h, step_ids s e hnr]
 
 theorem findIdx_hit (ls : List (FLink F)) (cid j : Nat) (l : FLink F)
     (h : ls.findIdx? (·.core.connId == cid) = some j) (hl : ls[j]? = some l) : l.core.connId = cid := by
@@ -324,5 +325,6 @@ theorem step_reg_idle (s : Sys F) (e : Ev) (h : RegIdle s.reg)
   | failBind cid => exact h
   | stamp idx weak ld ccb cct => exact h
   | syncTimeout => exact h
+  | reload now addrs outs => exact h
 
 end Srtla.Hk
